@@ -113,6 +113,7 @@ def status_cases(seed, tier, tag):
                     r, c = rng.choice(nodes)
                     ovs.append([[r, c, rng.choice([CORE, FV, FG, LOOPED])]])
                 ovs.append([[rng.choice([nr, nr + 3, 0]), rng.choice([nc, nc + 1]), rng.choice([CORE, FV, FG])]])
+                ovs.append([[rng.randrange(nr), rng.randrange(nc), rng.choice([CORE, FV, FG]), 1]])      # row 2^63 + r
                 a, b = rng.sample(nodes, 2)
                 ovs.append([[a[0], a[1], rng.choice([CORE, FV, FG])], [b[0], b[1], rng.choice([CORE, FV, FG, LOOPED])]])
             else:
@@ -122,6 +123,8 @@ def status_cases(seed, tier, tag):
                 ovs.append([[nr, 0, FV]])
                 ovs.append([[0, nc, FG]])
                 ovs.append([[nr + 2, nc + 2, LOOPED]])
+                for r in range(nr):
+                    ovs.append([[r, rng.randrange(nc), rng.choice([CORE, FV, FG]), 1]])                  # row 2^63 + r
                 for _ in range(4):
                     a, b = rng.sample(nodes, 2)
                     ovs.append([[a[0], a[1], rng.choice([CORE, FV, FG])], [b[0], b[1], rng.choice([CORE, FV, FG, LOOPED])]])
